@@ -3063,7 +3063,12 @@ class LocalGitClient(GitClient):
             for refname, new_sha1 in new_refs.items():
                 old_sha1 = old_refs.get(refname, ZERO_SHA)
                 if new_sha1 != ZERO_SHA:
-                    if not target.refs.set_if_equals(refname, old_sha1, new_sha1):
+                    if new_sha1 not in target.object_store:
+                        # Never let a ref name an object the target lacks
+                        msg = f"missing necessary objects for {refname!r}"
+                        _progress(msg.encode())
+                        ref_status[refname] = msg
+                    elif not target.refs.set_if_equals(refname, old_sha1, new_sha1):
                         msg = f"unable to set {refname!r} to {new_sha1!r}"
                         _progress(msg.encode())
                         ref_status[refname] = msg
